@@ -5,6 +5,7 @@
   registration before the local commit (C02).  `AT/Locks.lean` models the coordinator's grant rule
   and histories of several global transactions.
 -/
+import SeataModel.AT.SfuGap
 import SeataModel.AT.Locks
 import SeataModel.Props.C01
 import SeataModel.Lemmas.Locks
@@ -254,5 +255,55 @@ example : parseKeys (keysText [[['1', '3'], ['2', '9']], [['5'], ['2']]]) = [[['
 
 
 end KeyTextSection
+
+/-! ### the two queries of a locking read with a wait option (AT/SfuGap.lean) -/
+section sfuGap
+open Seata.AT.SfuGap
+
+/-- as coded, every row the application gets was named to the coordinator - for every wait option, every set of
+    matching rows and every way other transactions hold and release rows between the two queries -/
+theorem C03_sfu_returned_rows_are_named (m : Mode) (matching : List Nat) (held1 held2 : Nat → Bool)
+    (rows : List Nat) (h : (through keyMode m matching held1 held2).returned = some rows) :
+    ∀ r ∈ rows, r ∈ (through keyMode m matching held1 held2).named := by
+  intro r hr
+  cases m with
+  | plain =>
+    -- everything that matches is named
+    simp only [through, keyMode, lockingRead, Option.some.injEq] at h ⊢
+    subst h
+    simpa using hr
+  | nowait =>
+    -- named is everything that matches, or the read failed
+    by_cases hb : (matching.filter (fun r => held1 r && !([] : List Nat).contains r)).isEmpty = true
+    · simp only [through, keyMode, lockingRead, if_pos hb] at h ⊢
+      split at h
+      · simp only [Option.some.injEq] at h; subst h; exact hr
+      · simp at h
+    · simp only [through, keyMode, lockingRead, if_neg hb] at h
+      simp at h
+  | skipLocked =>
+    -- the key query is a plain one, everything that matches is named
+    simp only [through, keyMode, lockingRead, Option.some.injEq] at h ⊢
+    subst h
+    exact (List.mem_filter.mp hr).1
+
+/-- OPEN FINDING C16-skip-locked-waits-inside-global-tx, the price: as coded, a SKIP LOCKED read waits for a held
+    row where the statement alone would not -/
+theorem C03_sfu_skip_locked_waits_as_coded :
+    (through keyMode .skipLocked [1, 2, 3] (fun r => r == 2) (fun r => r == 2)).extraWait = true := by decide
+
+/-- ... and the alternative a seeded change proposed does not wait, but returns a row the coordinator was never
+    asked about when its holder lets go between the two queries (why the key query does not inherit SKIP LOCKED) -/
+theorem C03_sfu_inherited_skip_locked_returns_unnamed_row :
+    let r := through keyModeInherit .skipLocked [1, 2, 3] (fun r => r == 2) (fun _ => false)
+    r.extraWait = false ∧ r.named = [1, 3] ∧ r.returned = some [1, 2, 3] := by decide
+
+/-- NOWAIT inherited: fails at once when a row is held, and never waits where the statement would not -/
+theorem C03_sfu_nowait_never_waits (matching : List Nat) (held1 held2 : Nat → Bool) :
+    (through keyMode .nowait matching held1 held2).extraWait = false := by
+  simp only [through, keyMode, lockingRead]
+  split <;> simp
+
+end sfuGap
 
 end Seata.Props.C03
